@@ -12,6 +12,22 @@ import (
 	"path"
 )
 
+// lookupDirAttrs returns the directory attributes a LOOKUP reply carries. They are
+// fetched with GetAttr like every other post-op attribute block; the snapshot stored
+// with the handle is only a fallback, because it can predate a change made to the
+// same object through another handle (e.g. a rename away and back).
+func (h *NFSProcedureHandler) lookupDirAttrs(node *NFSNode) (NFSAttrs, bool) {
+	if attrs, err := h.server.handler.GetAttr(node); err == nil && attrs != nil {
+		return *attrs, true
+	}
+	node.mu.RLock()
+	defer node.mu.RUnlock()
+	if node.attrs == nil {
+		return NFSAttrs{}, false
+	}
+	return *node.attrs, true
+}
+
 // handleLookup handles NFSPROC3_LOOKUP - look up filename
 func (h *NFSProcedureHandler) handleLookup(body io.Reader, reply *RPCReply, authCtx *AuthContext) (*RPCReply, error) {
 	handleVal, err := xdrDecodeFileHandle(body)
@@ -39,14 +55,10 @@ func (h *NFSProcedureHandler) handleLookup(body io.Reader, reply *RPCReply, auth
 	node.mu.RUnlock()
 
 	if !isDir {
-		// R4: Copy attrs under RLock
-		node.mu.RLock()
-		if node.attrs == nil {
-			node.mu.RUnlock()
+		nodeAttrsCopy, ok := h.lookupDirAttrs(node)
+		if !ok {
 			return nfsErrorWithPostOp(reply, NFSERR_IO), nil
 		}
-		nodeAttrsCopy := *node.attrs
-		node.mu.RUnlock()
 		var buf bytes.Buffer
 		xdrEncodeUint32(&buf, NFSERR_NOTDIR)
 		xdrEncodeUint32(&buf, 1)
@@ -67,14 +79,10 @@ func (h *NFSProcedureHandler) handleLookup(body io.Reader, reply *RPCReply, auth
 		if h.server.options.Debug {
 			h.server.logger.Printf("LOOKUP: '%s' not found: %v", lookupPath, err)
 		}
-		// R4: Copy attrs under RLock
-		node.mu.RLock()
-		if node.attrs == nil {
-			node.mu.RUnlock()
+		nodeAttrsCopy, ok := h.lookupDirAttrs(node)
+		if !ok {
 			return nfsErrorWithPostOp(reply, NFSERR_IO), nil
 		}
-		nodeAttrsCopy := *node.attrs
-		node.mu.RUnlock()
 		var buf bytes.Buffer
 		xdrEncodeUint32(&buf, mapError(err))
 		xdrEncodeUint32(&buf, 1)
@@ -94,9 +102,10 @@ func (h *NFSProcedureHandler) handleLookup(body io.Reader, reply *RPCReply, auth
 	lookupNode.mu.RLock()
 	lookupAttrsCopy := *lookupNode.attrs
 	lookupNode.mu.RUnlock()
-	node.mu.RLock()
-	nodeAttrsCopy := *node.attrs
-	node.mu.RUnlock()
+	nodeAttrsCopy, ok := h.lookupDirAttrs(node)
+	if !ok {
+		return nfsErrorWithPostOp(reply, NFSERR_IO), nil
+	}
 
 	var buf bytes.Buffer
 	xdrEncodeUint32(&buf, NFS_OK)
